@@ -44,7 +44,7 @@ def signatures(maxn):
     return out
 
 
-def make_fn(sig, log, ctx_mode, inj, is_method=False, is_async=False):
+def make_fn(sig, log, ctx_mode, inj, is_method=False, is_async=False, nullable=False):
     """-> function; parameters: [self] [ctx first] a.. [ctx kw-only] [inj kw-only with default]"""
     parts = []
     if is_method:
@@ -56,7 +56,8 @@ def make_fn(sig, log, ctx_mode, inj, is_method=False, is_async=False):
         if kind == 'ko' and not star:
             parts.append('*')
             star = True
-        parts.append(NAMES[i] + (': int = 7' if dflt else ': int'))
+        ann = 'Optional[int]' if (nullable and i == 0) else 'int'
+        parts.append(NAMES[i] + (': %s = 7' % ann if dflt else ': %s' % ann))
     if ctx_mode == 'name':
         if not star:
             parts.append('*')
@@ -69,7 +70,8 @@ def make_fn(sig, log, ctx_mode, inj, is_method=False, is_async=False):
     names = [NAMES[i] for i in range(len(sig))]
     src = '%sdef f(%s):\n    _log.append(dict(%s))\n    return 1\n' % (
         'async ' if is_async else '', ', '.join(parts), ', '.join('%s=%s' % (n, n) for n in names))
-    ns = {'_log': log, 'Annotated': Annotated, 'Inject': Inject}
+    from typing import Optional
+    ns = {'_log': log, 'Annotated': Annotated, 'Inject': Inject, 'Optional': Optional}
     exec(src, ns)
     return ns['f'], src
 
@@ -113,6 +115,9 @@ def gen_cases(ctx):
                         if validator != 'base' and (flavour == 'view' or len(sig) > 3):
                             continue
                         yield dict(sig=sig, ctx=ctx_mode, inj=inj, flavour=flavour, validator=validator)
+                        if sig and validator != 'pydantic-extra-ignore' and len(sig) <= 3:
+                            # the first parameter is annotated Optional[int] (nullable, but still required when it has no default)
+                            yield dict(sig=sig, ctx=ctx_mode, inj=inj, flavour=flavour, validator=validator, nullable=True)
 
 
 def run_case(case, rec):
@@ -135,7 +140,7 @@ def run_case(case, rec):
         else:
             validator = PydanticValidator(exclude_param=pred if inj else None, **({'extra': 'ignore'} if vkind.endswith('ignore') else {}))
         if flavour == 'view':
-            fn, src = make_fn(sig, log, 'none', inj, is_method=True)
+            fn, src = make_fn(sig, log, 'none', inj, is_method=True, nullable=bool(case.get('nullable')))
             if validator:
                 fn = validator.validate(fn)
 
@@ -145,7 +150,7 @@ def run_case(case, rec):
             V.f = fn
             d.registry.view(V, context='context')
         else:
-            fn, src = make_fn(sig, log, ctx_mode, inj, is_async=(disp == 'async'))
+            fn, src = make_fn(sig, log, ctx_mode, inj, is_async=(disp == 'async'), nullable=bool(case.get('nullable')))
             if validator:
                 fn = validator.validate(fn)
             kw = {}
@@ -183,8 +188,10 @@ def run_case(case, rec):
         documented = sorted(set(docs['openapi'][0]) | set(docs['openrpc'][0]) | set(truth_names))
         universe = documented + ['zz'] + (['ctx'] if ctx_mode != 'none' else []) + (['inj'] if inj else [])
         for r in range(len(universe) + 1):
-            for sub in itertools.combinations(universe, r):
-                params = {k: 1 for k in sub}
+          for sub in itertools.combinations(universe, r):
+            for nullkey in ([None] + ([sub[0]] if (sub and vkind == 'base') else [])):
+                # second pass: the first member carries JSON null (binding is about names, not values)
+                params = {k: (None if k == nullkey else 1) for k in sub}
                 del log[:]
                 text = json.dumps({'jsonrpc': '2.0', 'id': 1, 'method': 'f', 'params': params})
                 try:
@@ -274,7 +281,7 @@ def replay(doc):
     from mc.core import Recorder, jdump
     rec = Recorder()
     c = doc['case']
-    run_case(dict(sig=c['sig'], ctx=c['ctx'], inj=c['inj'], flavour=c['flavour'], validator=c.get('validator', 'base')), rec)
+    run_case(dict(sig=c['sig'], ctx=c['ctx'], inj=c['inj'], flavour=c['flavour'], validator=c.get('validator', 'base'), nullable=c.get('nullable', False)), rec)
     for v in rec.violations[:5]:
         print('VIOLATION-REPLAY signature=%s\n  case=%s\n  expected=%s\n  observed=%s' % (
             v['signature'], jdump(v['case'])[:400], jdump(v['expected'])[:300], jdump(v['observed'])[:300]))
